@@ -89,7 +89,13 @@ class Session:
         """one query; an `unknown` / time-out (never an error) is retried ONCE in a fresh solver process with five times the time limit:
         the limits are wall-clock, and a loaded machine can push a sub-second query over a one-minute limit"""
         ans, dt, model = self._check_once(assertions, want_model, model_vars)
-        if ans == 'unknown' and not getattr(self, '_retrying', False) and Session.retry_budget > 0:
+        if ans == 'unknown':
+            # a session that keeps timing out (a tree on which the obligations no longer hold tends to produce many hard non-identities) is not
+            # allowed to spend a minute on each: after three, its limit drops to five seconds (the answers stay `unknown` = inconclusive)
+            self.unknowns = getattr(self, 'unknowns', 0) + 1
+            if self.unknowns >= 3 and not getattr(self, '_retrying', False):
+                self.timeout_s = min(self.timeout_s, 5)
+        if ans == 'unknown' and not getattr(self, '_retrying', False) and Session.retry_budget > 0 and getattr(self, 'unknowns', 0) <= 2:
             Session.retry_budget -= 1      # (per process: a tree on which MANY queries time out is not made 6 times slower)
             self._retrying = True
             old = self.timeout_s
